@@ -4,9 +4,12 @@
 (*                                                                         *)
 (* One operator per code-level rule:                                       *)
 (*   writer/utils/unmarshal/golangPprof.go                                 *)
-(*     getNodeId        -> NodeId      (hash of parent id, fn id, depth;   *)
-(*                                      modelled as injective: the id IS   *)
-(*                                      the root-first path)               *)
+(*     getNodeId        -> NodeId / Key (hash of parent id and fn id, plus *)
+(*                                      the depth CLAMPED at LevelCap in   *)
+(*                                      the top bits; the hash is modelled *)
+(*                                      as injective: the id IS the root-  *)
+(*                                      first path, Key is what the code   *)
+(*                                      computes from it)                  *)
 (*     postProcessProf  -> AddSample / Walk (per-stack walk from the LAST  *)
 (*                         location (root) to location 0 (leaf): total on  *)
 (*                         every frame, self on the leaf)                  *)
@@ -24,6 +27,20 @@
 (*   LayoutDef (absolute bar positions, children packed from the parent's  *)
 (*   left edge).                                                           *)
 (*                                                                         *)
+(* DEPTH.  The code has a depth dimension of its own: getNodeId keeps the  *)
+(* level of a node in 9 bits and clamps it (LevelCap, 511 in the code), so *)
+(* stacks exist that stay below, reach and exceed the clamp; the walk must *)
+(* go down to the leaf whatever the depth (that is where self is booked).  *)
+(* MaxDepth > LevelCap makes TLC enumerate all three kinds.  Real limits   *)
+(* are far beyond what TLC can enumerate frame by frame, therefore the     *)
+(* spec also defines depth STRETCHING (every level l of every call path    *)
+(* becomes a chain of R[l] frames: recursion, a cycle of mutually          *)
+(* recursive functions, or R[l] distinct functions) and proves on the      *)
+(* small cases that building, merging and laying out commute with it       *)
+(* (StretchHom, StretchLayout).  The binding uses exactly that map to turn *)
+(* the abstract level LevelCap into the real clamp level and its           *)
+(* neighbours (510, 511, 512, ... several thousand frames).                *)
+(*                                                                         *)
 (* State machine: profiles are ingested one sample at a time (Ingest) into *)
 (* the last profile; NewProfile opens another one.  A profile is a BAG of  *)
 (* samples, so every insertion order of the same bag reaches the same      *)
@@ -36,6 +53,8 @@ CONSTANTS
     FnSeq,        \* sequence of distinct function-name atoms (strings)
     K,            \* number of sample types
     MaxDepth,     \* longest stack
+    LevelCap,     \* getNodeId: a level above it is recorded as LevelCap in the node id (511 in the code)
+    StretchPlans, \* set of [r, m, flat]: stretch vectors checked by StretchHom / StretchLayout ({} = not checked)
     MinVal,       \* smallest sample value (0 or 1)
     MaxVal,       \* largest sample value
     MaxProfiles,  \* profiles per case
@@ -82,6 +101,11 @@ StackedSum(b) == [j \in Types |-> SumF([s \in {x \in DOMAIN b : x.stack # <<>>} 
 RootId    == <<>>
 EmptyTree == [id \in {} |-> 0]
 NodeId(parentId, fn, depth) == Append(parentId, fn)     \* getNodeId, assumed injective (no hash collisions)
+\* what getNodeId really computes from (parent id, fn id, depth): hash(parent id, fn id) with the clamped level on top
+LevelField(depth) == IF depth > LevelCap THEN LevelCap ELSE depth      \* if traceLevel > 511 { traceLevel = 511 }
+RECURSIVE Key(_)
+Key(id) == IF id = <<>> THEN <<>>
+           ELSE <<Key(Prefix(id, Len(id) - 1)), id[Len(id)], LevelField(Len(id))>>
 
 RECURSIVE Walk(_, _, _, _)
 Walk(t, s, i, parentId) ==                              \* i runs len(Location)-1 .. 0 in Go, Len .. 1 here
@@ -230,6 +254,53 @@ Nested(abs) ==
                     IN  /\ p.x <= abs[l][i].x
                         /\ abs[l][i].x + abs[l][i].total <= p.x + p.total
 
+(************************** depth stretching *******************************)
+\* A plan pl = [r |-> <<r1..rMaxDepth>>, m |-> <<m1..>>, flat |-> subset of Fn]: level l of every call path becomes a chain
+\* of pl.r[l] frames; frame j of the chain for function f is the function <<f, (j-1) % pl.m[l]>> (m = 1: plain recursion
+\* f f f ...; m >= r: r distinct functions; in between: a cycle of mutually recursive functions); functions in pl.flat
+\* always recurse (a location without line info has one name only).
+Chain(f, l, pl) == [j \in 1..pl.r[l] |-> <<f, IF f \in pl.flat THEN 0 ELSE (j - 1) % pl.m[l]>>]
+RECURSIVE SPath(_, _)
+SPath(p, pl) == IF p = <<>> THEN <<>>                                  \* root-first path -> stretched root-first path
+                ELSE SPath(Prefix(p, Len(p) - 1), pl) \o Chain(p[Len(p)], Len(p), pl)
+SSample(s, pl) == [stack |-> Reverse(SPath(Reverse(s.stack), pl)), val |-> s.val]
+SBag(b, pl) == [x \in {SSample(s, pl) : s \in DOMAIN b} |-> b[CHOOSE s \in DOMAIN b : SSample(s, pl) = x]]
+\* id of the j-th frame of the chain of node id
+SId(id, j, pl) == SPath(Prefix(id, Len(id) - 1), pl) \o SubSeq(Chain(id[Len(id)], Len(id), pl), 1, j)
+STree(t, pl) ==
+    LET prs == UNION {{<<id, j>> : j \in 1..pl.r[Len(id)]} : id \in DOMAIN t}
+    IN  [x \in {SId(pr[1], pr[2], pl) : pr \in prs} |->
+            LET pr == CHOOSE pr \in prs : SId(pr[1], pr[2], pl) = x
+            IN  [parent |-> Prefix(x, Len(x) - 1), fn |-> x[Len(x)],
+                 self   |-> IF pr[2] = pl.r[Len(pr[1])] THEN t[pr[1]].self ELSE Zero,     \* self stays on the last frame
+                 total  |-> t[pr[1]].total]]
+\* the writer mechanism on a whole bag (any order: BuildMechEqDef holds on every path of the lattice)
+RECURSIVE WalkN(_, _, _)
+WalkN(t, s, n) == IF n = 0 THEN t ELSE WalkN(AddSample(t, s), s, n - 1)
+RECURSIVE BuildMech(_, _)
+BuildMech(b, S) == IF S = {} THEN EmptyTree
+                   ELSE LET s == CHOOSE s \in S : TRUE IN WalkN(BuildMech(b, S \ {s}), s, b[s])
+SelfSum(t) == [j \in Types |-> SumF([id \in DOMAIN t |-> t[id].self[j]])]
+\* rows and levels of the stretched tree: every row becomes the rows of its chain (top down)
+SRow(r, pl) ==
+    LET l == Len(r.id) IN
+    [j \in 1..pl.r[l] |-> [parent |-> IF j = 1 THEN SPath(r.parent, pl) ELSE SId(r.id, j - 1, pl),
+                           fn |-> Chain(r.fn, l, pl)[j], id |-> SId(r.id, j, pl),
+                           self |-> IF j = pl.r[l] THEN r.self ELSE 0, total |-> r.total]]
+RECURSIVE SRows(_, _)
+SRows(rows, pl) == IF rows = <<>> THEN <<>> ELSE SRow(Head(rows), pl) \o SRows(Tail(rows), pl)
+\* levels: level 0 (the total bar) stays; abstract level l is drawn pl.r[l] times, self only on the last copy
+RECURSIVE SLevelsFrom(_, _, _)
+SLevelsFrom(ls, l, pl) ==
+    IF l + 1 > Len(ls) THEN <<>>
+    ELSE [j \in 1..pl.r[l] |->
+            [b \in 1..Len(ls[l + 1]) |->
+                [off |-> ls[l + 1][b].off, total |-> ls[l + 1][b].total,
+                 self |-> IF j = pl.r[l] THEN ls[l + 1][b].self ELSE 0,
+                 fn |-> Chain(ls[l + 1][b].fn, l, pl)[j]]]]
+         \o SLevelsFrom(ls, l + 1, pl)
+SLevels(ls, pl) == IF ls = <<>> THEN <<>> ELSE <<ls[1]>> \o SLevelsFrom(ls, 1, pl)
+
 (******************************* behaviour *********************************)
 Total == SumF([i \in 1..Len(profs) |-> BagSize(profs[i])])
 
@@ -298,4 +369,30 @@ LayoutMechEqDef ==
                       /\ Levels(RTDesc(ty)) = DeltaAll(LayoutDef(RTDesc(ty)))
 LayoutNested ==
     \A ty \in Types : Nested(LayoutDef(RTAsc(ty))) /\ Nested(LayoutDef(RTDesc(ty)))
+\* DEPTH (1): the clamp of the level in the node id merges no two nodes (the parent id is hashed in), at any depth
+KeyInjective == \A i \in 1..N : \A a, b \in DOMAIN stored[i] : Key(a) = Key(b) => a = b
+\* DEPTH (2): all self weight is booked, whatever the depth of the stack (the walk reaches the leaf)
+SelfSumStacked == \A i \in 1..N : SelfSum(stored[i]) = StackedSum(profs[i])
+\* DEPTH (3): building commutes with stretching -- the tree of the stretched profile is the stretched tree, by the
+\* walk and by the definition; it conserves weight, keeps the root sums and books all self weight
+StretchHom ==
+    \A pl \in StretchPlans : \A i \in 1..N :
+        LET sb == SBag(profs[i], pl)
+            st == STree(stored[i], pl)
+        IN  /\ BuildDef(sb) = st
+            /\ BuildMech(sb, DOMAIN sb) = st
+            /\ Conserved(st)
+            /\ RootTotals(st) = StackedSum(profs[i])
+            /\ SelfSum(st) = StackedSum(profs[i])
+            /\ \A a, b \in DOMAIN st : Key(a) = Key(b) => a = b
+\* DEPTH (4): merging and laying out commute with stretching (rows of every chain fed top down / bottom up)
+StretchLayout ==
+    \A pl \in StretchPlans : \A ty \in Types :
+        LET sasc  == MergeRows(EmptyRT, SRows(AllRowsAsc(ty), pl))
+            sdesc == MergeRows(EmptyRT, Reverse(SRows(AllRowsAsc(ty), pl)))
+        IN  /\ View(sasc)  = Proj(STree(Merged, pl), ty) /\ NoDupKids(sasc)
+            /\ View(sdesc) = Proj(STree(Merged, pl), ty) /\ NoDupKids(sdesc)
+            /\ Levels(sasc)  = SLevels(Levels(RTAsc(ty)), pl)
+            /\ Levels(sdesc) = SLevels(Levels(RTDesc(ty)), pl)
+            /\ RTTotal(sasc) = RTTotal(RTAsc(ty))
 =============================================================================
